@@ -342,7 +342,8 @@ func genLineSoup(r *core.Rand) string {
 		case 6:
 			b.WriteString(" .\n")
 		case 7:
-			b.WriteString(r.Pick([]string{"no colon here\n", ": empty key\n", "A:\n", " \n", "\t\n", ".\n", "A: 1\nA: 2\n", "\u00a0x: 1\n", "K\u2003: v\u00a0\n"}))
+			b.WriteString(r.Pick([]string{"no colon here\n", ": empty key\n", "A:\n", " \n", "\t\n", ".\n", "A: 1\nA: 2\n", "\u00a0x: 1\n", "K\u2003: v\u00a0\n",
+				"\r#foo: bar\n", "\v#k: v\n", "\u00a0#n: 1\n", "B:\n \rx\n", "B:\n \vy\n z\n", "B:\n \u00a0w\n", "\fC: d\n", "E:\n  \tindented\n", "#: x\n", " #cont\n"}))
 		}
 	}
 	s := b.String()
